@@ -397,13 +397,13 @@ impl<T: Elem> AnyValue for CowValue<T> { fn value_typeid(&self) -> TypeId { Type
 impl<T: Elem> AnyValueTypelessMut for CowValue<T> {}
 impl<T: Elem> AnyValueMut for CowValue<T> {}
 
-pub const N_USER_OPS: u8 = 4;
+pub const N_USER_OPS: u8 = 5;
 
 impl<T: Elem + SatisfyTraits<Tr>, M: MX, Tr: TrX + ?Sized> World<T, M, Tr> {
     /// C13 / C01: the user-defined handle swapped with element i (both dispatch orders), pushed, inserted at i
     pub fn do_user_value(&mut self, op: u8, i: usize, out: &mut Out) {
         let len = self.ma.len();
-        if T::SIZE == 0 || (op < 2 && i >= len) || (op == 3 && i > len) || (op >= 2 && !M::RESIZABLE && len >= self.a.capacity()) { out.outcome.push_str("n/a"); return; }
+        if T::SIZE == 0 || (op < 2 && i >= len) || (op >= 3 && i > len) || (op >= 2 && !M::RESIZABLE && len >= self.a.capacity()) { out.outcome.push_str("n/a"); return; }
         let source = ManuallyDrop::new({ let _w = elem::WindowOff::new(); T::fresh() });
         let sid = source.id();
         let mut cow_slot = Some(CowValue::<T>::new(&source));
@@ -413,7 +413,8 @@ impl<T: Elem + SatisfyTraits<Tr>, M: MX, Tr: TrX + ?Sized> World<T, M, Tr> {
             0 => { let mut e = a.at_mut(i); e.swap(cs.as_mut().unwrap()); 0 }
             1 => { let mut e = a.at_mut(i); cs.as_mut().unwrap().swap(&mut *e); 0 }
             2 => { a.push(cs.take().unwrap()); 1 }
-            _ => { a.insert(i, cs.take().unwrap()); 1 }
+            3 => { a.insert(i, cs.take().unwrap()); 1 }
+            _ => { let d = a.splice(i..i, [cs.take().unwrap()]); drop(d); 1 }
         });
         match r {
             Err(Caught::Injected) => { out.faulted = true; out.leak_ok = true; return; }
